@@ -103,7 +103,13 @@ func c10Exec(in []string) []string {
 			if err != nil {
 				got = "ERR"
 			} else {
-				got = proto.B(req.URL.EscapedPath())
+				// the string handed to http.NewRequest: url.Parse keeps it in RawPath unless it is
+				// the default encoding of Path
+				orig := req.URL.RawPath
+				if orig == "" {
+					orig = req.URL.EscapedPath()
+				}
+				got = proto.B(orig) + " " + proto.Bool(orig == req.URL.EscapedPath())
 			}
 			if k == 0 {
 				first = got
@@ -111,7 +117,7 @@ func c10Exec(in []string) []string {
 				return []string{"ORDER-DEPENDENT", first, got}
 			}
 		}
-		return []string{first}
+		return strings.Fields(first)
 	case "Q":
 		b, p, c := c10ParseValues(in[1], in[2]), c10ParseValues(in[3], in[4]), c10ParseValues(in[5], in[6])
 		base := "/api"
@@ -227,7 +233,8 @@ func c10Gen(r *proto.Rng, n int, tier string, emit func(in ...string)) {
 					vs = append(vs, c10Value(r))
 				}
 			}
-			bu, err1 := url.Parse(base)
+			// client.New normalises the base path; the model starts from what the Runtime holds
+			bu, err1 := url.Parse(client.New("example.test", base, nil).BasePath)
 			pu, err2 := url.Parse(pattern)
 			if err1 != nil || err2 != nil {
 				continue
